@@ -165,6 +165,15 @@ func (h *DefaultHandler) HandleOutgoing(msgType string, handle OutgoingHandlerFu
 
 // ServeIncoming is an internal method for handling incoming messages.
 func (h *DefaultHandler) ServeIncoming(msg []byte) {
+	// Once the handler is stopped every further message is dropped: with the stop signal and room in
+	// the queue both at hand, the select below would pick either, and a later message could be
+	// queued (and still dispatched by Run on its way out) after an earlier one had been dropped.
+	select {
+	case <-h.ctx.Done():
+		return
+	default:
+	}
+
 	select {
 	case h.incoming <- msg:
 	case <-h.ctx.Done():
